@@ -517,7 +517,7 @@ class Manager:
             if state.event == event.parent:
                 state.flag = True
                 self.registerTask((state.task_event, state.task, state.parent))
-                if state.timeout > 0:
+                if state.timeout >= 0:
                     self.removeHandler(state.tick_handler, 'generate_events')
 
         def _on_tick(self):
